@@ -3,8 +3,8 @@ CONSTANTS
   MaxIf = 3
   MaxGen = 3
   RestartRule = "stop_old"
-  PortRule = "configured"
-  ShutdownRule = "close_always"
+  PortRule = "opened"
+  ShutdownRule = "guarded"
 INVARIANT OneResponder
 INVARIANT AnswersTrue
 CHECK_DEADLOCK FALSE
